@@ -376,6 +376,14 @@ def rule_linearity(ctx, rule='R07.l'):
             bad.append('the transform of g after a transform of f differs from the transform of g by a fresh Domain')
         if not _norm(ip, ip.term_of(out_f)[0], L).equals(alone_f):
             bad.append('the first result changes when the transform is called again')
+        # the caller re-uses its buffer: same array object, new contents (amplitude / parameter sweeps through one work array)
+        buf = Arr(N.sym('f'), 'array3', ip)
+        ip.call(ip.find_method(dom, nm), [buf], {})
+        buf.t = N.sym('g')
+        again = ip.call(ip.find_method(dom, nm), [buf], {})
+        if not _norm(ip, ip.term_of(again)[0], L).equals(alone_g):
+            bad.append('an array transformed once and then modified in place is not transformed again (the result of the first '
+                       'call is returned for the same array object)')
         if bad:
             ctx.violation('R07.p', construct, 'purity', '; '.join(sorted(set(bad))), m.loc())
         else:
@@ -409,6 +417,29 @@ def rule_matrixarray_transforms(ctx, rule='R07.m'):
                 ctx.violation(rule, construct, 'guard', 'array is modified (%s) before the refusal' % ev[0]['loc'], m.loc())
             else:
                 ctx.holds(rule, construct, 'ValueError before any write when already in %s space' % target, m.loc(), key='guard')
+        # (1b) an array flagged NonSpatial is not "already in the target space": it is transformed like any other
+        from ..interp import explore as _explore
+
+        def run_ns(preset, nm=nm):
+            ipn, domn, Ln, dn = _fresh(ctx)
+            ipn.preset = list(preset)
+            man = W.matrixarray(ipn, 'M', 'NonSpatial', origin='marray')
+            ipn.call(ipn.find_method(domn, nm), [man], {})
+            return ipn, man
+        try:
+            outcomes = set()
+            for d_, ipn, man in _explore(run_ns, keep_raised=True):
+                if ipn is None:
+                    outcomes.add('an array flagged NonSpatial is refused (%s: %s) although it is not in %s space' % (
+                        man.exc, (man.msg or '')[:80], target))
+                elif getattr(man.attrs['space'], 'v', None) != ('Space', target):
+                    outcomes.add('a NonSpatial array is flagged %r after the transform' % (getattr(man.attrs['space'], 'v', None),))
+            if outcomes:
+                ctx.violation(rule, construct, 'nonspatial', '; '.join(sorted(outcomes)), m.loc())
+            else:
+                ctx.holds(rule, construct, 'a NonSpatial array is transformed and flagged %s' % target, m.loc(), key='nonspatial')
+        except Unsupported as e:
+            ctx.undecided(rule, construct, 'NonSpatial array: %s' % e, m.loc())
         # (2) transformation (data-dependent branches inside the loop are explored: every path must transform every pair)
         from ..interp import explore
 
